@@ -77,7 +77,7 @@ func structOf(fa *ssa.FieldAddr) (*types.Named, *types.Struct) {
 func mutexField(s *types.Struct) string {
 	for i := 0; i < s.NumFields(); i++ {
 		if ok, _ := isMutexType(s.Field(i).Type()); ok {
-			return s.Field(i).Name()
+			return an.FieldNameHook(s, i)
 		}
 	}
 	return ""
@@ -275,7 +275,7 @@ func guardedAccesses(fn *ssa.Function) []fieldAccess {
 		if !ok {
 			return
 		}
-		f := s.Field(fa.Field).Name()
+		f := an.FieldNameHook(s, fa.Field)
 		guarded := false
 		for _, g := range fields {
 			if g == f {
@@ -952,7 +952,7 @@ func addrSuffix(v ssa.Value) string {
 	switch x := v.(type) {
 	case *ssa.FieldAddr:
 		if n, s := structOf(x); n != nil && n.Obj().Name() == "Event" {
-			return "." + s.Field(x.Field).Name()
+			return "." + an.FieldNameHook(s, x.Field)
 		}
 		return addrSuffix(x.X)
 	case *ssa.IndexAddr:
